@@ -353,7 +353,19 @@ macro_rules! impl_tryfrom_integer {
 
             fn try_from(value: Token) -> Result<Self, Self::Error> {
                 match value {
-                    Token::DecimalNumericProgramData(value) => lexical_core::parse::<$from>(value)
+                    // lexical-core does not reliably report overflow for literals with as many
+                    // digits as the target's maximum (`356` parses as `100u8`), so parse wide
+                    // and narrow with a checked conversion.
+                    Token::DecimalNumericProgramData(value) => lexical_core::parse::<i128>(value)
+                        .and_then(|wide| {
+                            <$from>::try_from(wide).map_err(|_| {
+                                if wide < 0 {
+                                    lexical_core::Error::Underflow(0)
+                                } else {
+                                    lexical_core::Error::Overflow(0)
+                                }
+                            })
+                        })
                         .or_else(|e| {
                             if matches!(e, lexical_core::Error::InvalidDigit(_)) {
                                 let value = lexical_core::parse::<$intermediate>(value)?;
